@@ -31,6 +31,7 @@ def check(c: Check):
     clause_b2(c)
     clause_c(c)
     clause_d(c)
+    clause_e(c)
 
 
 def _text_value_modules(ix: Index):
@@ -321,3 +322,46 @@ def clause_d(c: Check):
                          'a text is opened with newline=%s: its line ends are translated differently from every other '
                          'access' % unparse(v), '%s:%d' % (m.relpath, node.lineno))
     c.floor('C14-d', 'newline= arguments', n, 1)
+
+
+# ---------------------------------------------------------------- e
+def clause_e(c: Check):
+    """positions of text files: the value of tell() of one text object (a number of characters for the memory
+    buffer, an opaque cookie for a file on disk) is meaningful only for seek() on that same object"""
+    ix = c.ix
+    n = 0
+    for name in _text_value_modules(ix):
+        t = ix.text(name)
+        if '.seek(' not in t:
+            continue
+        m = ix.module(name)
+        for node in ast.walk(m.tree):
+            if not (isinstance(node, ast.Call) and isinstance(node.func, ast.Attribute) and node.func.attr == 'seek'
+                    and node.args):
+                continue
+            n += 1
+            f = m.enclosing_func(node)
+            where = f.key if f else name
+            a = node.args[0]
+            recv = unparse(node.func.value)
+            if isinstance(a, ast.Starred):
+                c.ok('C14-e', 'seek@%s/delegation' % where)
+                continue
+            if isinstance(a, ast.Constant) and a.value == 0:
+                c.ok('C14-e', 'seek@%s/start-or-end' % where)
+                continue
+            src = a
+            if isinstance(a, ast.Name) and f is not None:
+                b = f.local_bindings().get(a.id, [])
+                if len(b) == 1 and b[0][0] == 'assign' and b[0][1] is not None:
+                    src = b[0][1]
+                elif any(x[0] == 'param' for x in b):
+                    c.ok('C14-e', 'seek@%s/position-given-by-caller' % where)
+                    continue
+            ok = isinstance(src, ast.Call) and isinstance(src.func, ast.Attribute) and src.func.attr == 'tell' \
+                 and unparse(src.func.value) == recv
+            c.expect(ok, 'C14-e', 'seek@%s/%s' % (where, unparse(a)),
+                     '%s.seek() is given %s: a position of another text object (a character count of the memory buffer '
+                     'is not a position in the file on disk - non-ASCII text is corrupted when the buffer is moved to a '
+                     'file)' % (recv, unparse(src)), '%s:%d' % (m.relpath, node.lineno))
+    c.floor('C14-e', 'seek calls on texts', n, 2)
